@@ -994,11 +994,13 @@ def membership(path, ens, ens_num, subcycles=1, lattice=True, shift=0.0):
 class MoveMonitor:
     """C09/C11 riders: what run_md returns, for every move of a history."""
 
-    def __init__(self, check_zero_swap=True, subcycles=1, shift=0.0):
+    def __init__(self, check_zero_swap=True, subcycles=1, shift=0.0,
+                 lattice=True):
         self.snap = None
-        self.check_zero_swap = check_zero_swap
+        self.check_zero_swap = check_zero_swap and lattice
         self.subcycles = subcycles
         self.shift = float(shift)   # order = lattice site + shift
+        self.lattice = lattice      # False: a real MD engine (no site files)
 
     def before_run_md(self, rig, md_items):
         self.snap = {e: path_snapshot(md_items["picked"][e]["traj"])
@@ -1047,7 +1049,8 @@ class MoveMonitor:
                 continue
             rig.reach("membership")
             for mech, txt in membership(new, ens, e, self.subcycles,
-                                        shift=self.shift):
+                                        shift=self.shift,
+                                        lattice=self.lattice):
                 rig.violate(mech, f"{'+'.join(out['moves'])} in ensemble {e} "
                             f"accepted: {txt}",
                             orders=[float(p.order[0])
@@ -1069,9 +1072,13 @@ class MoveMonitor:
                     rig.violate("shooting-point-is-end-point",
                                 f"shooting index {idx_old} of a path of "
                                 f"length {old['n']}")
-                elif not (0 <= idx_new < new.length) or \
-                        float(new.phasepoints[idx_new].order[0]) != \
-                        old["frames"][idx_old][0][0]:
+                elif not (0 <= idx_new < new.length) or not (
+                        abs(float(new.phasepoints[idx_new].order[0]) -
+                            old["frames"][idx_old][0][0]) <=
+                        (0.0 if self.lattice else 2e-6)):
+                    # (a real engine recomputes the order parameter of the
+                    # shooting point; a reloaded old path carries the six
+                    # decimals of order.txt)
                     rig.violate("acc-without-shooting-point",
                                 f"frame {idx_new} of the new path is not the "
                                 f"shooting point (old frame {idx_old})")
@@ -1110,6 +1117,36 @@ class WeightVectorMonitor:
     attaches to every accepted path must be that of the frames the path
     actually holds - whatever chain of copies, pastes and extensions inside
     the move produced it."""
+
+    def on_state(self, rig, state):
+        """Paths loaded at a (re)start get their weights from load_paths."""
+        from vf.oracles import wfseg
+        sim = state.config["simulation"]
+        intf = [float(x) for x in sim["interfaces"]]
+        moves = list(sim["shooting_moves"])
+        cap = sim["tis_set"].get("interface_cap")
+        for slot, traj in enumerate(state._trajs[:-1]):
+            orders = [float(p.order[0]) for p in traj.phasepoints]
+            want = (1.0,) if slot == 0 else wfseg.weight_vector(
+                orders, intf, moves, cap)
+            got = None if traj.weights is None else \
+                tuple(float(x) for x in traj.weights)
+            rig.reach("loaded_weight_vector")
+            rig.ev("loaded_weight_vectors")
+            if got != tuple(want):
+                rig.violate("loaded-weight-vector-differs-from-oracle",
+                            f"path {traj.path_number} loaded into slot "
+                            f"{slot}: load_paths weights {got}, oracle on "
+                            f"the path's frames {tuple(want)}",
+                            orders=orders[:80], interfaces=intf,
+                            mc_moves=moves, cap=cap, segment=rig.segment)
+            # the matrix row the sampler uses must be that vector too
+            row = [float(x) for x in state.state[slot][:len(want) if slot
+                                                       else 1]]
+            if slot and row[1:len(want)] != list(want)[:len(want) - 1]:
+                rig.violate("loaded-state-row-differs-from-oracle",
+                            f"path {traj.path_number}: state row {row}, "
+                            f"oracle {tuple(want)}", segment=rig.segment)
 
     def after_run_md(self, rig, out):
         from vf.oracles import wfseg
